@@ -160,6 +160,12 @@ impl EncodingBuilder {
             // Calculate entry size: 1 (key_count) + 5 (file_size) + 16 (content_key) + 16 * key_count (encoding_keys)
             let entry_size = 1 + 5 + 16 + (16 * entry_data.encoding_keys.len());
 
+            // An entry must fit into a single page; a larger one would silently grow
+            // the page buffer past the size announced in the header.
+            if entry_size > page_size {
+                return Err(EncodingError::InvalidPageSize(page_size));
+            }
+
             // Check if adding this entry would exceed page size
             if current_page_size + entry_size > page_size && !current_page_entries.is_empty() {
                 // Finalize current page
